@@ -427,7 +427,12 @@ func (r *Resolvable) Resolve(ctx context.Context, rootData *Object, fetchTree *F
 		// Announce only the top-level defers whose anchor survived. Nested defers
 		// are announced lazily when their parent is released. A recoverable error
 		// that null-propagated onto a defer's own anchor cancels just that defer.
-		live := r.liveChildDescriptors(0)
+		// When data is null (an error propagated to the root) nothing can be delivered
+		// incrementally: no defer is announced and the response is complete.
+		var live map[int]DeferDescriptor
+		if !hasErrors {
+			live = r.liveChildDescriptors(0)
+		}
 		r.printPendingEntries(live)
 		r.printHasNext(len(live) > 0)
 	}
